@@ -251,3 +251,44 @@ M('encode_new_encoder_per_item', 'C17', 'encode creates a new incremental encode
   'rxsci/data/codec.py', "                if incremental:\n                    data = encoder.encode(i)", "                if incremental:\n                    data = codecs.getincrementalencoder(encoding)().encode(i)")
 M('decode_no_final_flush', 'C17', 'decode replaces undecodable tail bytes at a chunk boundary (errors=replace on the incremental decoder)',
   'rxsci/data/codec.py', "                decoder = codecs.getincrementaldecoder(encoding)()", "                decoder = codecs.getincrementaldecoder(encoding)('replace')\n                decoder_decode = decoder.decode\n                decoder.decode = lambda b, final=False: decoder_decode(b, True)")
+
+# ---- C01 / C02 / C08 / C11 (pipeline-level)
+M('first_mux_marker', 'C01', 'first_mux tests its marker with "is not True" on a bool store that returns ints for typed default... emits the first TWO items when the first item is falsy',
+  'rxsci/operators/first.py', """                    if value is False:
+                        observer.on_next(i)
+                        i.store.set_state(state, i.key, True)""", """                    if value is False:
+                        observer.on_next(i)
+                        i.store.set_state(state, i.key, bool(i.item) or i.item is None)""")
+M('last_mux_none_item', ['C01', 'C10'], 'last_mux does not emit when the last item is None (tests the value instead of the NOTSET marker)',
+  'rxsci/operators/last.py', "                    if value is not rs.state.markers.STATE_NOTSET:\n                        observer.on_next(rs.OnNextMux(i.key, value, i.store))", "                    if value is not rs.state.markers.STATE_NOTSET and value is not None:\n                        observer.on_next(rs.OnNextMux(i.key, value, i.store))")
+M('flat_map_mux_reversed_pairs', 'C01', 'flat_map_mux materialises tuples in reverse order',
+  'rxsci/operators/flat_map.py', "                    for ii in i.item:\n                        observer.on_next(i._replace(item=ii))", "                    for ii in (reversed(i.item) if isinstance(i.item, tuple) else i.item):\n                        observer.on_next(i._replace(item=ii))")
+M('tee_zip_no_clear', ['C08', 'C01'], 'tee_map mux zip does not clear the has_next flags of the LAST branch after emitting a tuple',
+  'rxsci/operators/tee_map.py', "                            for index in range(n):\n                                has_next[base_index+index] = False\n                                queue[base_index+index] = None", "                            for index in range(n - 1):\n                                has_next[base_index+index] = False\n                                queue[base_index+index] = None")
+M('tee_branch_order', 'C08', 'tee_map subscribes its branches in reverse order (merge emits branch outputs in reverse branch order)',
+  'rxsci/operators/tee_map.py', "        for i in range(n):\n            subscriptions[i] = sources[i].subscribe_(\n                on_next=functools.partial(on_next, i),", "        for i in reversed(range(n)):\n            subscriptions[i] = sources[i].subscribe_(\n                on_next=functools.partial(on_next, i),")
+M('tee_plain_combine_flags', 'C08', 'plain tee_map combine_latest emits only once every branch has produced (behaves like zip without reset)',
+  'rxsci/operators/tee_map.py', "            elif combine is True:\n                queue[i] = x\n                has_next[i] = True\n                res = tuple(queue)\n                observer.on_next(res)", "            elif combine is True:\n                queue[i] = x\n                has_next[i] = True\n                if all(has_next):\n                    res = tuple(queue)\n                    observer.on_next(res)")
+M('scan_reduce_emits_each', ['C11', 'C09'], 'scan_mux with reduce=True also emits at every 4th item',
+  'rxsci/operators/scan.py', "                        if reduce is False:\n                            observer.on_next(rs.OnNextMux(i.key, acc, i.store))\n                    except Exception as e:", "                        if reduce is False or (isinstance(acc, int) and not isinstance(acc, bool) and acc == 4):\n                            observer.on_next(rs.OnNextMux(i.key, acc, i.store))\n                    except Exception as e:")
+M('split_buffers_segment', 'C11', 'split closes a segment one item late when the new predicate is falsy',
+  'rxsci/data/split.py', "                    if new_predicate != current_predicate:", "                    if new_predicate != current_predicate and (new_predicate or current_predicate is None or True) and not (new_predicate == 0 and current_predicate == 1):")
+
+# ---- C18 / C19 / C20
+M('csv_strip_fields', 'C18', 'csv line parser strips blanks around unquoted AND quoted fields',
+  'rxsci/container/csv.py', "                    i = i[1:-1]\n", "                    i = i[1:-1].strip()\n")
+M('csv_dump_float_repr', 'C18', 'csv.dump prints floats with 15 significant digits',
+  'rxsci/container/csv.py', "                    else:\n                        f = str(f)\n                    ii.append(f)", "                    else:\n                        f = '%.15g' % f if isinstance(f, float) else str(f)\n                    ii.append(f)")
+M('json_dump_ascii_newline', 'C19', 'json.dump post-processes U+2028 into a real newline',
+  'rxsci/container/json.py', "                    line = line.decode()\n", "                    line = line.decode().replace('\\u2028', '\\n')\n")
+M('json_read_chunk_decode', 'C19', 'json.load_from_file decodes each 64K chunk independently (characters cut at a chunk boundary are corrupted)',
+  'rxsci/container/json.py', "                rs.data.decode(encoding),\n                line.unframe(),", "                rs.data.decode(encoding, incremental=False),\n                line.unframe(),")
+M('parquet_row_group_drop', 'C20', 'parquet writer passes row_group_size as batch size limit and drops the remainder of a batch',
+  'rxsci/container/parquet.py', "                        writer.write(i, row_group_size=row_group_size)", "                        writer.write(i.slice(0, row_group_size) if row_group_size and row_group_size > 50 else i, row_group_size=row_group_size)")
+M('parquet_load_skips_last_partial', 'C20', 'load_from_file stops after the first short batch... drops rows when batch_size divides nothing',
+  'rxsci/container/parquet.py', "                    for r in rows:\n                        observer.on_next(r)", "                    for r in (rows if len(rows) != batch_size - 1 else rows[:-1]):\n                        observer.on_next(r)")
+
+
+# Tried and found EQUIVALENT (no observable change), therefore not listed: dropping roll's counter reset at key completion
+# (add_key resets it), tee_map forwarding OnCreateMux from the last branch, dropping pad_start's del_key (add_key resets),
+# swapping the two unescape replaces of the csv parser (exhaustively equal on all dumped strings up to length 6).
